@@ -292,8 +292,8 @@ func judgeReality(cr *checkRun, expectNoFailFile bool) *verdict {
 	// N = number of generated cases that completed without a signal before the falsified one
 	valid := 0
 	for _, inv := range invs {
-		if inv.phase() == "generate" && inv.Returned && !inv.signalled() {
-			valid++
+		if inv.phase() == "generate" && inv.Returned && !inv.signalled() && inv.SkipWhy == "" {
+			valid++ // (a case whose cleanup function skipped is invalid although its body returned)
 		}
 	}
 	if rp.N != valid {
